@@ -94,6 +94,10 @@ def expand_macro(spec):
 
 
 def read_src(src):
+    if src in _VIRTUAL:
+        return _VIRTUAL[src]
+    if src.startswith("expanded:"):
+        raise Undecided("expanded source %s not produced in this run" % src)
     if src.startswith("expand:"):
         if src not in _VIRTUAL:
             _VIRTUAL[src] = expand_macro(src)
@@ -403,7 +407,7 @@ def render_extraction(ex, gsubs, canary=None):
         l.text = t
     info = {
         "src": ex.src, "selector": ex.selector, "line": base_line,
-        "kind": item.kind, "name": ex.rename or item.name,
+        "kind": item.kind, "name": _qual_name(ex.selector, ex.rename or item.name),
         "sha256": hashlib.sha256(text.encode()).hexdigest()[:16],
         "loops": len(loops), "assumed": ex.sig_only_external or ex.header_only,
         "has_contract": any(w == "contract" for w, _, _ in ex.inserts),
@@ -448,6 +452,17 @@ def _expand_foreach(lines, rel):
         out.append(lines[i])
         i += 1
     return out
+
+
+def _qual_name(selector, name):
+    m = re.search(r"(?:impl|trait):(.*)::fn:[^:]+$", selector)
+    if not m:
+        return name
+    hdr = m.group(1)
+    if " for " in hdr:
+        hdr = hdr.split(" for ", 1)[1]
+    hdr = hdr.split("#")[0]
+    return "%s::%s" % (hdr.strip(), name)
 
 
 def parse_template(path, seen=None):
